@@ -55,6 +55,9 @@ RetErrs(ev) ==
      [] ev.name = "Index" -> IF ev.ret # el[c][a + 1] THEN {"index_value"} ELSE {}
      [] ev.name = "Front" -> IF ev.ret # el[c][1] THEN {"front_value"} ELSE {}
      [] ev.name = "Back" -> IF ev.ret # el[c][Len(el[c])] THEN {"back_value"} ELSE {}
+     \* a constructor armed to throw at the first construction must be seen to throw when the operation constructs an element at all
+     [] ev.name \in {"PushBack", "EmplaceBack"} ->
+            IF ev.inject = "ctor" /\ ev.injn = 1 /\ (cap = 0 \/ Len(el[c]) < cap) /\ ev.threw # 1 THEN {"exception_swallowed"} ELSE {}
      [] OTHER -> {}
 
 TInit == /\ JInit /\ l = 1 /\ sync = FALSE /\ elem = "int" /\ L = LInit
@@ -83,7 +86,7 @@ TNext ==
            LET errs == ObsErrs(ev, ev.c) IN
            /\ UNCHANGED <<avars, elem, L>>
            /\ IF errs # {} THEN Bad(errs, [contents |-> el[ev.c]]) ELSE sync' = TRUE
-      ELSE /\ Act(ev) /\ UNCHANGED <<elem, L>>
+      ELSE /\ (IF ev.threw = 1 /\ ev.name \in {"PushBack", "EmplaceBack", "Resize", "Reserve"} THEN Failed(ev.c) ELSE Act(ev)) /\ UNCHANGED <<elem, L>>
            /\ LET errs == ObsErrs(ev, ev.c) \cup RetErrs(ev) IN
               IF errs # {} THEN Bad(errs, [contents |-> el'[ev.c], size |-> Len(el'[ev.c])]) ELSE sync' = TRUE
 TSpec == TInit /\ [][TNext]_<<avars, tvars>>
